@@ -299,7 +299,7 @@ class Runner:
         bad = None
         for cid, c in h["cfgs"].items():
             for obj, kind in h["kinds"].items():
-                if any(cl[0] == "setup" and cl[1] == obj and cl[2] == cid for cl in h["calls"]):
+                if any(cl[0] in ("setup", "simulate") and cl[1] == obj and cl[2] == cid for cl in h["calls"]):
                     rf = self.ref(c, kind)
                     if isinstance(rf, tuple):
                         bad = {"call": "REF-" + rf[0].upper(), "obj": obj, "cfg": cid, "info": str(rf[1])}
@@ -361,18 +361,20 @@ class Runner:
             d["t"] = abs_step(raw_time(lib), rf.T) if rf else UNKNOWN
             return d
 
-        finalized_all = True
-        for cl in h["calls"]:
+        def perform(cl, given_script=None):
+            """one lifecycle call on the real engine, logged after it returned; returns (python result, exception)"""
+            nonlocal glob
             call, obj = cl[0], cl[1]
             eng = engines[obj]
             d = {"call": call, "obj": obj}
+            result, raised = None, None
             try:
                 if call == "setup":
                     cid = cl[2]
                     c = h["cfgs"][cid]
                     _, script = self.script(c)
                     us_before = (script.units_system["space"], script.units_system["time"], script.units_system["quantity"])
-                    eng.setup(script)
+                    result = eng.setup(script if given_script is None else given_script)
                     us_after = (script.units_system["space"], script.units_system["time"], script.units_system["quantity"])
                     own[obj] = (cid, h["kinds"][obj])
                     glob = own[obj]
@@ -384,6 +386,8 @@ class Runner:
                         cfg["kind"] = "marshal-mismatch"
                     if us_before != us_after:
                         cfg["kind"] = "caller-script-modified-by-setup"
+                    if given_script is not None and given_script is not script:
+                        cfg["kind"] = "driver-handed-over-another-script"
                     d["cfg"] = cfg
                     d["cid"] = cid
                     d["checks"] = {"x0ok": rf.x0ok, "stepsok": rf.stepsok}
@@ -391,21 +395,25 @@ class Runner:
                         d["cfg"] = dict(cfg, kind="ref-inconsistent")
                     seen(obj, d)
                 elif call == "iterate":
-                    d["ret"] = bool(eng.iterate())
+                    result = eng.iterate()
+                    d["ret"] = bool(result)
                     seen(obj, d)
                 elif call == "iterate_n":
                     d["k"] = int(cl[2])
-                    d["ret"] = bool(eng.iterate_n(int(cl[2])))
+                    result = eng.iterate_n(int(cl[2]))
+                    d["ret"] = bool(result)
                     seen(obj, d)
                 elif call == "run":
                     d["ms"] = int(cl[2])
-                    d["ret"] = bool(eng.run(int(cl[2])))
+                    result = eng.run(int(cl[2]))
+                    d["ret"] = bool(result)
                     seen(obj, d)
                 elif call == "sample":
                     eng.sample()
                     seen(obj, d)
                 elif call == "get_progress":
                     p = eng.get_progress()
+                    result = p
                     rf = cur_ref(obj)
                     seen(obj, d)
                     d["raw"] = p
@@ -418,11 +426,12 @@ class Runner:
                     else:
                         d["pnum"] = 0 if p == 0 else UNKNOWN
                 elif call == "is_complete":
-                    d["ret"] = bool(eng.is_complete())
+                    result = eng.is_complete()
+                    d["ret"] = bool(result)
                 elif call == "get_output":
                     cid_own = own.get(obj, (None,))[0]
                     want_units = dict({"space": "µm", "time": "s", "quantity": "molecule"}, **(h["cfgs"].get(cid_own, {}).get("units") or {})) if cid_own else None
-                    self._output(eng, lib, cur_ref(obj), d, want_units if view == "own" else None)
+                    result = self._output(eng, lib, cur_ref(obj), d, want_units if view == "own" else None)
                     seen(obj, d)
                 elif call == "finalize":
                     eng.finalize()
@@ -430,7 +439,79 @@ class Runner:
                     raise ValueError(call)
             except Exception as e:  # an exception out of a lifecycle call is an outcome
                 d = {"call": "EXC", "obj": obj, "in": call, "exc": repr(e)[:300]}
+                raised = e
             emit(d)
+            return result, raised
+
+        class Proxy:
+            """Stands between a driver (simulate_script) and the real engine: every call the driver makes is performed on the
+            real engine and logged like any other call of the history."""
+
+            def __init__(self, obj, cid):
+                self.obj, self.cid, self.last_output = obj, cid, None
+
+            def _do(self, cl, **kw):
+                r, e = perform(cl, **kw)
+                if e is not None:
+                    raise e
+                return r
+
+            def setup(self, script):
+                return self._do(["setup", self.obj, self.cid], given_script=script)
+
+            def iterate(self):
+                return self._do(["iterate", self.obj])
+
+            def iterate_n(self, n):
+                return self._do(["iterate_n", self.obj, n])
+
+            def run(self, ms):
+                # the slice length is the driver's business; the history records it as asked
+                return self._do(["run", self.obj, ms])
+
+            def sample(self):
+                return self._do(["sample", self.obj])
+
+            def get_progress(self):
+                return self._do(["get_progress", self.obj])
+
+            def is_complete(self):
+                return self._do(["is_complete", self.obj])
+
+            def get_output(self):
+                self.last_output = self._do(["get_output", self.obj])
+                return self.last_output
+
+            def finalize(self):
+                return self._do(["finalize", self.obj])
+
+            def get_option(self):
+                return engines[self.obj].get_option()
+
+            def __getattr__(self, name):        # anything else the driver may read (option, description, ...)
+                return getattr(engines[self.obj], name)
+
+        for cl in h["calls"]:
+            if cl[0] == "simulate":             # ["simulate", obj, cid, print_progress]
+                from strengths import simulate_script
+                obj, cid = cl[1], cl[2]
+                _, script = self.script(h["cfgs"][cid])
+                emit({"call": "simulate_begin", "obj": obj})
+                px = Proxy(obj, cid)
+                try:
+                    devnull = open(os.devnull, "w")
+                    saved = sys.stdout
+                    sys.stdout = devnull
+                    try:
+                        out = simulate_script(script, px, bool(cl[3]) if len(cl) > 3 else False)
+                    finally:
+                        sys.stdout = saved
+                        devnull.close()
+                    emit({"call": "simulate_end", "obj": obj, "outok": bool(out is not None and out is px.last_output)})
+                except Exception as e:  # noqa
+                    emit({"call": "EXC", "obj": obj, "in": "simulate", "exc": repr(e)[:300]})
+            else:
+                perform(cl)
 
     def _output(self, eng, lib, rf, d, want_units=None):
         out = eng.get_output()
@@ -475,6 +556,7 @@ class Runner:
         d["recT"], d["recN"], d["dataok"] = recT, recN, ok
         if why:
             d["why"] = why[:4]
+        return out
 
 
 def _read_all(fd, timeout, pid, partial=None):
